@@ -315,12 +315,30 @@ def libfuzzer(ctx, quick, corpus_root=None):
         t, seed = job
         d = util.scratch("nfuzz-lf-")
         try:
-            rc, out, err, to = util.run([b, "-runs=%d" % (runs if t in ("manifest", "dyndep", "depslog", "buildlog", "depfile", "depfileload") else runs // 3),
-                                         "-max_len=%d" % big[t], "-seed=%d" % seed, "-timeout=20", "-rss_limit_mb=3000", "-print_final_stats=1",
-                                         "-artifact_prefix=%s/" % d, "-verbosity=0", d] +
-                                        ([os.path.join(corpus_root, t)] if corpus_root and os.path.isdir(os.path.join(corpus_root, t)) else []),
-                                        env=env_for(t), timeout=7200, cwd=d)
-            txt = err.decode("latin-1")
+            # ninja never frees its graph (by design), so a fuzzing process grows with every execution: the budget is spent
+            # in processes of at most 400 000 executions that share the corpus directory
+            total = runs if t in ("manifest", "dyndep", "depslog", "buildlog", "depfile", "depfileload") else runs // 3
+            txt, rc, to, chunk = "", 0, False, 0
+            while total > 0 and rc == 0 and not to:
+                nrun = min(total, 400000)
+                total -= nrun
+                rc, out, err, to = util.run([b, "-runs=%d" % nrun,
+                                             "-max_len=%d" % big[t], "-seed=%d" % (seed + 1000 * chunk), "-timeout=20", "-rss_limit_mb=3000", "-malloc_limit_mb=1500",
+                                             "-print_final_stats=1", "-artifact_prefix=%s/" % d, "-verbosity=0", d] +
+                                            ([os.path.join(corpus_root, t)] if corpus_root and os.path.isdir(os.path.join(corpus_root, t)) else []),
+                                            env=env_for(t), timeout=7200, cwd=d)
+                chunk += 1
+                txt += err.decode("latin-1")
+                if rc != 0 and "out-of-memory (used" in txt:
+                    # accumulated growth or one input's doing?  the artifact alone, in a fresh process, decides
+                    arts = [f for f in os.listdir(d) if f.startswith("oom-")]
+                    alone = util.run([b, "-rss_limit_mb=3000", "-malloc_limit_mb=1500", "-timeout=20", os.path.join(d, arts[0])], env=env_for(t), timeout=600, cwd=d) if arts else None
+                    if alone is not None and alone[0] == 0:
+                        for f in arts:
+                            os.unlink(os.path.join(d, f))
+                        txt = txt.replace("out-of-memory (used", "accumulated-growth (used")
+                        txt += "\nNFUZZ-NOTE rss limit reached by accumulation, artifact alone is fine\n"
+                        rc = 0
             if rc != 0 and "NFUZZ-CRASH-INPUT" not in txt:
                 for f in os.listdir(d):
                     if f.startswith(("crash-", "timeout-", "oom-")):
@@ -332,15 +350,16 @@ def libfuzzer(ctx, quick, corpus_root=None):
             util.rmtree(d)
     with ThreadPoolExecutor(max_workers=util.NCPU) as ex:
         for t, rc, txt, to in ex.map(one, jobs):
-            m = re.search(r"stat::number_of_executed_units: (\d+)", txt)
-            n = int(m.group(1)) if m else 0
+            n = sum(int(x) for x in re.findall(r"stat::number_of_executed_units: (\d+)", txt))
+            if "NFUZZ-NOTE rss limit reached by accumulation" in txt:
+                ctx.count("libfuzzer_processes_restarted_for_memory_growth")
             ctx.evaluations += n
             ctx.count("libfuzzer_%s_execs" % t, n)
             mc = re.findall(r"cov: (\d+) ft: (\d+)", txt)
-            ma = re.search(r"stat::new_units_added:\s+(\d+)", txt)
+            ma = [int(x) for x in re.findall(r"stat::new_units_added:\s+(\d+)", txt)]
             if ma:
-                ctx.count("libfuzzer_%s_new_units" % t, int(ma.group(1)))
-                ctx.distinct_extra += int(ma.group(1))
+                ctx.count("libfuzzer_%s_new_units" % t, sum(ma))
+                ctx.distinct_extra += sum(ma)
             if to:
                 ctx.inconclusive += 1
                 continue
